@@ -129,7 +129,20 @@ func (rn *runner) gcConsequence(caseName string, r *repo, sessions []session, ha
 	for _, s := range sessions {
 		cr := r.cold()
 		l := newLoadLog()
-		s.fn(cr, l)
+		// After a collection that swept a still-referenced chunk, dolt's readers may panic ("empty chunk returned
+		// from ChunkStore") instead of returning an error. That is the consequence being demonstrated: it is turned
+		// into a violation here so that the remaining cases of the stage still run.
+		func() {
+			defer func() {
+				if p := recover(); p != nil {
+					c.Count("c09.loader_panicked_after_gc", 1)
+					c.Violation("c09/gc-consequence/panic", fmt.Sprintf("loader %q panicked after DoltDB.GC: %v", s.name, p),
+						map[string]any{"case": caseName, "loader_ok_before_gc": before[s.name] == 0})
+					l.errs = append(l.errs, fmt.Sprintf("panic: %v", p))
+				}
+			}()
+			s.fn(cr, l)
+		}()
 		cr.closeEngine()
 		if before[s.name] == 0 && len(l.errs) > 0 {
 			c.Count("c09.loader_broken_by_gc", 1)
@@ -236,6 +249,35 @@ func c09Kinds(c *rig.Ctx) {
 		}
 		r.close()
 	}
+	// --- tables whose leaves hold fewer out-of-band addresses than the schema has address-capable columns ----
+	partial := map[string]int{}
+	for i, sh := range sparseShapes(c) {
+		name := "sparse-oob/" + sh.String()
+		c.Case(name, sh)
+		r := newRepo("k")
+		s := newSyn(r)
+		one, none := buildSparse(r, sh, c.SubRand("sparserows", i))
+		pop := leafPopulation(r.cold())
+		c.Count("c09.sparse.rows_exactly_one_oob", one)
+		c.Count("c09.sparse.rows_no_oob", none)
+		c.Count("c09.sparse.leaves", pop.leaves)
+		c.Count("c09.sparse.leaves_partial_oob", pop.partial)
+		c.Count("c09.sparse.leaves_no_oob", pop.none)
+		c.Count("c09.sparse.leaves_full_oob", pop.full)
+		c.Count("c09.sparse.leaves_partial_oob."+sh.Enc+"."+sh.Size, pop.partial)
+		partial[sh.Enc+"."+sh.Size] += pop.partial
+		nv := rn.check(name, r, s.labels, tableSessions())
+		rn.gcConsequence(name, r, tableSessions(), nv > 0)
+		c.Distinct(fmt.Sprintf("sparse-oob/enc=%s,cols=%d,size=%s", sh.Enc, sh.Cols, sh.Size))
+		if i < 1 {
+			c.Sample(map[string]any{"kind": "sparse-oob table", "shape": sh.String(), "leaves": pop.leaves, "partial": pop.partial})
+		}
+		r.close()
+	}
+	for _, k := range []string{"adaptive.tiny", "adaptive.multi", "addr.tiny", "addr.multi"} {
+		c.Require(partial[k] > 0, "no primary-index leaf with 0 < out-of-band addresses < address-capable columns for "+k)
+	}
+
 	for _, bc := range bigCases(c) {
 		c.Case(bc.name, nil)
 		r := newRepo("k")
